@@ -110,8 +110,10 @@ def scenarios(ctx):
     rng = ctx.rng
     out = []
 
-    def add(W, reqs, faults=(), slow=0.0, api="play_many"):
+    def add(W, reqs, faults=(), slow=0.0, api="play_many", pause=0.0, compress=1):
         s = {"W": W, "requests": list(reqs), "faults": list(faults)}
+        if pause:
+            s["pause"], s["compress"] = pause, compress
         if slow:
             s["slow"] = slow
         if api != "play_many":
@@ -136,6 +138,9 @@ def scenarios(ctx):
         add(2, [5], ["killplay:1:1"], slow=0.2)
         add(1, [1], ["killwait:0:1"])
         add(2, [2, 2], ["killwait:0:2"])
+        # a long-lived engine left idle between two requests (the trainer trains between rollout
+        # batches): 3 s of pause, timed waits of the workers 100x faster = five idle minutes
+        add(2, [3, 3], pause=3.0, compress=100)
         # a worker killed while it is still starting up (inside its engine factory)
         add(1, [2], ["killinit:0"])
         add(2, [5], ["killinit:1"], slow=0.2)
@@ -172,6 +177,7 @@ def scenarios(ctx):
                         add(W, [rng.choice([1, 2, 5]), 2], ["killwait:%d:%d" % (j, r)])
                     add(W, [rng.choice([1, 2, 5]), 2], ["killinit:%d" % j], slow=rng.choice([0.0, 0.2]), api=rng.choice(["play_many", "play_many_games"]))
                 add(W, [5], ["game:%d:1" % j for j in js])
+                add(W, [2, 3, 2], pause=rng.choice([2.0, 4.0]), compress=rng.choice([100, 1000]))
                 add(W, [8, 2], ["killwait:0:1", "game:%d:2" % (W - 1)])
                 # backlogs (N > 2W), early faults, fast and slow survivors; both entry points
                 big = 2 * W + rng.choice([2, 4, 6])
